@@ -102,3 +102,74 @@ def name_version(m, meta):
         os.environ.update(saved[2])
         term_image.enable_queries()
     return {"reproduced": bool(problems), "input": "scripted XTVERSION replies x environment x queries on/off", "observed": [repr(p)[:300] for p in problems[:3]]}
+
+
+def colors(m, meta):
+    """get_fg_bg_colors on scripted replies (query_terminal / read_tty replaced by recording stubs)"""
+    import term_image
+    import term_image.utils as U
+    problems = []
+    saved = (U.query_terminal, U.read_tty)
+    fn = getattr(U.get_fg_bg_colors, "__wrapped__", U.get_fg_bg_colors)
+    try:
+        E = "\x1b"
+        for reply, exp in ((f"{E}]10;rgb:ffff/0000/8080{E}\\{E}]11;rgb:1/2/3{E}\\{E}[".encode(), ((255, 0, 128), (17, 34, 51))),
+                           (f"{E}]11;rgb:00/ff/7f\x07{E}[".encode(), (None, (0, 255, 127))),
+                           (f"{E}]10;rgb:fff/000/fff{E}\\{E}[".encode(), ((255, 0, 255), None)),
+                           (f"{E}]11;rgb:0a/0b/0c{E}\\{E}]10;rgb:1a/1b/1c{E}\\{E}[".encode(), ((26, 27, 28), (10, 11, 12))),
+                           (b"\x1b[", (None, None)), (b"", (None, None)), (None, (None, None))):
+            for enabled in (True, False):
+                calls = {"r": 0}
+
+                def q(request, more, timeout=None):
+                    return reply if U._queries_enabled else None
+
+                def r(*a, **k):
+                    calls["r"] += 1
+                    return b"?62;c"
+                U.query_terminal, U.read_tty = q, r
+                (term_image.enable_queries if enabled else term_image.disable_queries)()
+                got = tuple(fn())
+                want = exp if enabled else (None, None)
+                if got != want or calls["r"] != (1 if enabled else 0):
+                    problems.append({"reply": reply, "queries_enabled": enabled, "got": got, "expected": want, "drains": calls["r"]})
+                if enabled and want != (None, None):
+                    hx = tuple(fn(hex=True))
+                    whx = tuple(None if c is None else "#%02x%02x%02x" % c for c in want)
+                    if hx != whx:
+                        problems.append({"reply": reply, "hex": hx, "expected": whx})
+    finally:
+        U.query_terminal, U.read_tty = saved
+        term_image.enable_queries()
+    return {"reproduced": bool(problems), "input": "scripted OSC 10 / 11 replies x queries on/off", "observed": [repr(p)[:300] for p in problems[:3]]}
+
+
+def read_loops(m, meta):
+    """read_tty on a pty: the timed read stops exactly where its predicate is first satisfied (what follows stays queued), the
+    drain takes everything that has arrived"""
+    import os, pty
+    import term_image.utils as U
+    master, slave = pty.openpty()
+    saved = U._tty_fd
+    problems = []
+    try:
+        U._tty_fd = slave
+        for data, stop_after in ((b"\x1bP>|kitty(0.31)\x1b\\\x1b[?62;c", 2), (b"abc\x1b[zzz", 0), (b"\x1b[?1;2c", 0), (b"x" * 150 + b"\x1b[rest", 0)):
+            os.write(master, data)
+            got = U.read_tty(lambda s: not s.endswith(b"\x1b["), 0.5)
+            k = data.index(b"\x1b[") + 2
+            if got != data[:k]:
+                problems.append(("timed read", data[:30], "returned", got[-20:], "expected to stop after", data[:k][-20:]))
+            rest = U.read_tty()
+            if rest != data[k:]:
+                problems.append(("drain", "returned", rest[:30], "expected", data[k:][:30]))
+            if U.read_tty() != b"":
+                problems.append(("second drain not empty",))
+        # nothing queued: the timed read gives up after its timeout, the drain returns at once
+        if U.read_tty(lambda s: True, 0.05) != b"" or U.read_tty() != b"":
+            problems.append(("read on an empty queue returned data",))
+    finally:
+        U._tty_fd = saved
+        os.close(master)
+        os.close(slave)
+    return {"reproduced": bool(problems), "input": "scripted reply streams on a pty", "observed": [repr(p)[:300] for p in problems[:3]]}
